@@ -112,6 +112,13 @@ func (s *Scanner) Scanv(ctx context.Context, out ...interface{}) (int, bool) {
 	if s.err != nil {
 		return 0, false
 	}
+	if len(out) != s.typ.NumOut() {
+		s.err = typecheck.Errorf(1, "wrong arity: expected %d columns, got %d", s.typ.NumOut(), len(out))
+		return 0, false
+	}
+	if len(out) == 0 {
+		return 0, false
+	}
 	columnvs := make([]reflect.Value, len(out))
 	for i := range out {
 		columnvs[i] = reflect.ValueOf(out[i])
